@@ -145,8 +145,10 @@ def marshal_loop(reads_legacy):
                 ('parts', t, exact),
                 ('nothing-present-was-refused', all_ok(st, me, legacy, upto=k), True)]
 
-    return CutFor(havoc, inv, doc='flags == sum of the flags of the present properties so far; '
-                                  'join(parts) == their encodings in specification order')
+    ann = CutFor(havoc, inv, doc='flags == sum of the flags of the present properties so far; '
+                                 'join(parts) == their encodings in specification order')
+    ann.binds = ('flags', 'parts', 'self')
+    return ann
 
 
 def marshal_contract():
@@ -288,8 +290,10 @@ def unmarshal_loop():
             out.append(('attribute:' + NAMES[j], tt, ee))
         return out
 
-    return CutFor(havoc, inv, doc='data == encodings of the flagged properties not yet read ++ rest; '
-                                  'attributes read so far hold the grammar values, the others are untouched')
+    ann = CutFor(havoc, inv, doc='data == encodings of the flagged properties not yet read ++ rest; '
+                                 'attributes read so far hold the grammar values, the others are untouched')
+    ann.binds = ('data', 'flags', 'self')
+    return ann
 
 
 def unmarshal_contract():
